@@ -5,7 +5,7 @@ from . import common
 from .common import viol
 
 ID = "C12"
-RUNS = {"quick": 1200, "thorough": 16000}
+RUNS = {"quick": 1200, "thorough": 8000}
 REAL = common.REAL
 SIMULATED = common.SIMULATED
 ASSUMPTIONS = [
